@@ -121,6 +121,34 @@ Definition compare (src : bytes) (oi os : list otok * list (Z * Z)) : option sex
   | None => compare_mode "sig" (lex false src) os
   end.
 
+(** positions, also where the text has lexical errors (the instance of [lex_positions] on the
+    observation): every observed token must sit at a code point whose specification position is
+    the reported (line, column), and its literal must be the text found there *)
+Fixpoint locate (fuel : nat) (p : Z * Z) (l : list cp) (line col : Z) : option (list cp) :=
+  if (fst p =? line)%Z && (snd p =? col)%Z then Some l
+  else match fuel, l with
+       | S f, c :: l' =>
+           locate f (if ends_line c (hd_error l') then (fst p + 1, 1)%Z else (fst p, snd p + 1)%Z) l' line col
+       | _, _ => None
+       end.
+
+Definition located (cps : list cp) (t : otok) : option string :=
+  match locate (S (List.length cps)) (1, 1)%Z cps (o_line t) (o_col t) with
+  | None => Some "position"
+  | Some l =>
+      if bytes_eqb (firstn (List.length (o_lit t)) (utf8_encode_all l)) (o_lit t) && negb (is_nil (o_lit t))
+      then None else Some "extent"
+  end.
+
+Fixpoint first_unlocated (i : nat) (cps : list cp) (ts : list otok) : option (nat * string) :=
+  match ts with
+  | [] => None
+  | t :: ts' => match located cps t with
+                | Some what => Some (i, what)
+                | None => first_unlocated (S i) cps ts'
+                end
+  end.
+
 (** ** Spec oracle on the implementation's observation.
     Result: None = accepted; Some (key, known_class, details). *)
 Definition oracle (src : bytes) (oi os : list otok * list (Z * Z)) : option (string * bool * list sexp) :=
@@ -131,7 +159,11 @@ Definition oracle (src : bytes) (oi os : list otok * list (Z * Z)) : option (str
       match spec_lex cps with
       | (_, EndFuel) => Some ("spec-out-of-fuel", false, [])
       | (_, EndError why idx _ _) =>
-          if is_nil (snd oi) || is_nil (snd os) then Some ("accepted-" ++ reason_name why, false, [of_nat idx]) else None
+          if is_nil (snd oi) || is_nil (snd os) then Some ("accepted-" ++ reason_name why, false, [of_nat idx])
+          else match first_unlocated 0 cps (fst oi ++ fst os) with
+               | Some (i, what) => Some ("token-" ++ what ++ "-in-erroneous-text", false, [of_nat i])
+               | None => None
+               end
       | (stoks, EndOk) =>
           let known := if excl_dangling_exponent cps stoks then Some "dangling-exponent"
                        else if excl_inner_bom stoks then Some "inner-bom" else None in
